@@ -26,7 +26,9 @@ def write(prop, tier, seed, coverage, wall_s, violations, assumptions):
         "wall_s": round(float(wall_s), 2),
         "violations": int(violations),
     }
-    d = os.path.join(ROOT, "evidence")
+    # runs against a scratch copy of the repository (VERIF_REPO, used for seeded changes) must not replace the evidence of /repo
+    scratch = os.environ.get("VERIF_REPO") not in (None, "", "/repo")
+    d = os.environ.get("VERIF_EVIDENCE_DIR") or os.path.join(ROOT, "evidence_scratch" if scratch else "evidence")
     os.makedirs(d, exist_ok=True)
     path = os.path.join(d, prop + ".json")
     tmp = path + ".tmp"
